@@ -63,30 +63,31 @@ type History struct {
 }
 
 type Mismatch struct {
-	Index   int    `json:"index"`
-	Op      string `json:"op"`
-	Why     string `json:"why"`
-	Crash   bool   `json:"crash,omitempty"`
-	Stall   bool   `json:"stall,omitempty"`
-	Stderr  string `json:"stderr,omitempty"`
+	Index   int     `json:"index"`
+	Op      string  `json:"op"`
+	Why     string  `json:"why"`
+	Crash   bool    `json:"crash,omitempty"`
+	Stall   bool    `json:"stall,omitempty"`
+	Stderr  string  `json:"stderr,omitempty"`
 	History History `json:"history"`
 }
 
 type Engine struct {
-	modelPath string
-	srv       *Server
-	mdl       *Model
-	conns     map[int]*Conn
-	resp      map[int]int
-	persist   string
-	Steps     int
-	CmdHist   map[string]int
-	ErrHist   map[string]int
-	Restarts  int
+	modelPath   string
+	srv         *Server
+	mdl         *Model
+	conns       map[int]*Conn
+	resp        map[int]int
+	queuedHello map[int][]int // HELLO versions queued inside an open transaction, per connection
+	persist     string
+	Steps       int
+	CmdHist     map[string]int
+	ErrHist     map[string]int
+	Restarts    int
 }
 
 func newEngine(modelPath string) (*Engine, error) {
-	e := &Engine{modelPath: modelPath, conns: map[int]*Conn{}, resp: map[int]int{}, CmdHist: map[string]int{}, ErrHist: map[string]int{}}
+	e := &Engine{modelPath: modelPath, conns: map[int]*Conn{}, resp: map[int]int{}, queuedHello: map[int][]int{}, CmdHist: map[string]int{}, ErrHist: map[string]int{}}
 	var err error
 	if e.mdl, err = startModel(modelPath); err != nil {
 		return nil, err
@@ -106,6 +107,7 @@ func (e *Engine) restartServer() error {
 	}
 	e.conns = map[int]*Conn{}
 	e.resp = map[int]int{}
+	e.queuedHello = map[int][]int{}
 	var err error
 	e.srv, err = startServer(e.persist)
 	e.Restarts++
@@ -144,6 +146,7 @@ func (e *Engine) reset() error {
 		delete(e.conns, id)
 	}
 	e.resp = map[int]int{}
+	e.queuedHello = map[int][]int{}
 	if err := e.mdl.Reset(); err != nil {
 		return err
 	}
@@ -177,6 +180,7 @@ func (e *Engine) Run(h History) (*Mismatch, error) {
 				c.Close()
 				delete(e.conns, op.Conn)
 				delete(e.resp, op.Conn)
+				delete(e.queuedHello, op.Conn)
 			}
 			e.mdl.CloseConn(op.Conn)
 			time.Sleep(5 * time.Millisecond)
@@ -228,13 +232,42 @@ func (e *Engine) Run(h History) (*Mismatch, error) {
 			e.ErrHist[errCode(unhex(ms.atoms()[0]))]++
 		}
 		ctx := CmpCtx{Resp: e.resp[op.Conn], SlackMs: el.Milliseconds() + 25}
-		if len(args) > 0 && strings.EqualFold(string(args[0]), "hello") && g.Kind != '-' && len(args) > 1 {
-			if string(args[1]) == "3" {
-				e.resp[op.Conn] = 3
-			} else if string(args[1]) == "2" {
-				e.resp[op.Conn] = 2
+		if len(args) > 0 {
+			// which protocol the connection speaks: HELLO 2|3 switches when it is executed - at once, or, when it
+			// was queued in a transaction, when EXEC runs the queue (never, if the transaction is dropped)
+			name := strings.ToLower(string(args[0]))
+			queued := g.Kind == '+' && string(g.Str) == "QUEUED"
+			switch {
+			case name == "hello" && len(args) > 1 && g.Kind != '-':
+				v := 0
+				if string(args[1]) == "3" {
+					v = 3
+				} else if string(args[1]) == "2" {
+					v = 2
+				}
+				if queued {
+					e.queuedHello[op.Conn] = append(e.queuedHello[op.Conn], v)
+				} else if v != 0 {
+					e.resp[op.Conn] = v
+				}
+			case name == "exec":
+				if g.Kind == '*' && !g.Nil {
+					for _, v := range e.queuedHello[op.Conn] {
+						if v != 0 {
+							e.resp[op.Conn] = v
+						}
+					}
+				}
+				delete(e.queuedHello, op.Conn)
+			case name == "discard" && g.Kind != '-':
+				delete(e.queuedHello, op.Conn)
 			}
 			ctx.Resp = e.resp[op.Conn]
+			if name == "exec" {
+				// the EXEC reply itself is still sent in the protocol in force when EXEC was issued? No: the
+				// queued HELLO has run by then; the emulator converts with the version in force after the queue
+				ctx.Resp = e.resp[op.Conn]
+			}
 		}
 		if ctx.Resp != 3 {
 			// whatever the command and whatever the model says about it: a connection that has not
@@ -324,12 +357,12 @@ func writeReplay(dir, prop string, m *Mismatch, seed int64, n int) string {
 	os.MkdirAll(dir, 0o755)
 	path := filepath.Join(dir, fmt.Sprintf("%s-seed%d-%d.json", prop, seed, n))
 	type replay struct {
-		Property string   `json:"property"`
-		Kind     string   `json:"kind"`
-		Seed     int64    `json:"seed"`
-		Why      string   `json:"why"`
-		AtIndex  int      `json:"at_index"`
-		Ops      []string `json:"ops_readable"`
+		Property string    `json:"property"`
+		Kind     string    `json:"kind"`
+		Seed     int64     `json:"seed"`
+		Why      string    `json:"why"`
+		AtIndex  int       `json:"at_index"`
+		Ops      []string  `json:"ops_readable"`
 		Mismatch *Mismatch `json:"mismatch"`
 	}
 	r := replay{Property: prop, Kind: "sequential-history", Seed: seed, Why: m.Why, AtIndex: m.Index, Mismatch: m}
